@@ -246,7 +246,7 @@ def finish(prop, tier, seed, level, results, t_start, repo, functions_under_cont
     if extra_cov:
         cov.update(extra_cov)
     if level == "proof" and total_proof == 0:
-        level = "other"       # nothing unbounded was discharged in this run: do not call it a proof
+        cov["obligations"], cov["discharged"] = 0, 0     # schema then rejects the record: a proof claim needs discharged proof obligations
     ev = dict(property_id=prop, tier=tier, seed=seed, level=level, coverage=cov,
               assumptions=assumptions, wall_s=round(time.time() - t_start, 2), violations=len(vio_records))
     with open(os.path.join(VERIF, "evidence", "%s.json" % prop), "w") as f:
